@@ -12,6 +12,9 @@ import (
 	"testing"
 
 	"github.com/evolbioinfo/goalign/align"
+	"github.com/evolbioinfo/goalign/io/clustal"
+	"github.com/evolbioinfo/goalign/io/fasta"
+	"github.com/evolbioinfo/goalign/io/phylip"
 	"pgregory.net/rapid"
 	"verif/internal/gen"
 	"verif/internal/pbt"
@@ -174,8 +177,9 @@ type siteCase struct {
 	IN    bool     `json:"ignore_n"`
 	Rev   bool     `json:"reverse"`
 	// Build: how the alignment is constructed before it is cleaned (see construct); Seed for Sample
-	Build string `json:"build,omitempty"`
-	Seed  int64  `json:"seed,omitempty"`
+	Build string    `json:"build,omitempty"`
+	Seed  int64     `json:"seed,omitempty"`
+	Plan  *gen.Plan `json:"plan,omitempty"` // Build "plan": the drawn chain of operations (gen.BuildVia)
 }
 
 func (c siteCase) optMask() int {
@@ -370,9 +374,28 @@ func nameOf(i int) string { return "s" + strconv.Itoa(i) }
 //	         Append (which does not copy the rows)
 //	"sample" Sample(all rows) of a source alignment: a permutation whose rows are the source's rows
 //	"clone"  Clone() of a source alignment
+//	"plan"   a drawn chain of public operations ending on the content (gen.DrawPlan / gen.BuildVia)
+//
+// and objects whose ALPHABET comes from a history instead of a declaration:
+//
+//	"translate"     a nucleotide alignment (codons chosen so that the standard code gives the content)
+//	                translated in place with Translate(0, standard)
+//	"parse-fasta" / "parse-clustal" / "parse-phylip"  written with the format's writer and parsed again
+//	                (alphabet detected by the parser)
+//	"auto"          NewAlign(UNKNOWN), AddSequence, AutoAlphabet()
+//	"reauto"        built as nucleotides over a placeholder content, every cell then set with
+//	                SetSequenceChar, AutoAlphabet() called after the content changed
+//
+// For these the model takes the alphabet the CONTENT has, classified independently: protein when a
+// letter occurs that is no nucleotide code (E F I L P Q Z), nucleotide when U or O occurs; when
+// every letter is compatible with both (detection then answers "nucleotide" on the unchanged tree, a
+// choice the documentation does not fix) the two alphabets are both accepted.
 //
 // The cleaning must give the selection of the kept columns (rows) of what the alignment held, and the
 // alignment that was the SOURCE of the Append / Sample / Clone must be unchanged afterwards.
+// randomBuildModes: the random run draws from every construction (rapid favours the first entries)
+var randomBuildModes = []string{"", "plan", "translate", "parse-clustal", "shared", "auto", "append", "parse-fasta", "reauto", "sample", "parse-phylip", "clone", "plan", "translate"}
+
 var buildModes = []string{"", "shared", "", "append", "", "sample", "clone"}
 
 func alphaCode(alpha string) int {
@@ -382,7 +405,44 @@ func alphaCode(alpha string) int {
 	return align.NUCLEOTIDS
 }
 
-func construct(alpha string, rows []string, build string, seed int64) (al align.Alignment, held []gen.Row, sourceUnchanged func() error) {
+var codonOf = map[byte]string{'A': "GCT", 'C': "TGT", 'D': "GAT", 'N': "AAT", 'L': "CTT", 'G': "GGT", 'T': "ACT", 'X': "NNN", '-': "---"}
+
+// translatable: the content can be the result of a translation chosen by the harness
+func translatable(rows []string) bool {
+	for _, r := range rows {
+		for i := 0; i < len(r); i++ {
+			if _, ok := codonOf[r[i]]; !ok {
+				return false
+			}
+		}
+	}
+	return true
+}
+
+// contentAlphabets: the alphabets the content can have, by the letters it holds
+func contentAlphabets(rows []string) []string {
+	aa, nt := false, false
+	for _, r := range rows {
+		for i := 0; i < len(r); i++ {
+			switch fold(r[i]) {
+			case 'E', 'F', 'I', 'L', 'P', 'Q', 'Z':
+				aa = true
+			case 'U', 'O':
+				nt = true
+			}
+		}
+	}
+	switch {
+	case aa && !nt:
+		return []string{"aa"}
+	case nt && !aa:
+		return []string{"nt"}
+	}
+	return []string{"nt", "aa"}
+}
+
+func construct(alpha string, rows []string, build string, seed int64, plan *gen.Plan) (al align.Alignment, held []gen.Row, alphas []string, sourceUnchanged func() error) {
+	alphas = []string{alpha}
 	sourceUnchanged = func() error { return nil }
 	must := func(e error) {
 		if e != nil {
@@ -435,10 +495,124 @@ func construct(alpha string, rows []string, build string, seed int64) (al align.
 		al, e = src.Clone()
 		must(e)
 		watch("Clone", src)
+	case "plan":
+		var ok bool
+		if plan != nil {
+			al, ok = gen.BuildVia(ali(alpha, rows), *plan)
+		}
+		if !ok {
+			al = gen.MustBuild(ali(alpha, rows))
+		}
+	case "translate":
+		if !translatable(rows) {
+			al = gen.MustBuild(ali(alpha, rows))
+			break
+		}
+		al = align.NewAlign(align.NUCLEOTIDS)
+		for i, r := range rows {
+			var sb strings.Builder
+			for k := 0; k < len(r); k++ {
+				codon := codonOf[r[k]]
+				if (i+k)%3 == 0 && r[k] != '-' {
+					codon = strings.ToLower(codon) // soft-masked codons translate like upper-case ones
+				}
+				sb.WriteString(codon)
+			}
+			must(al.AddSequence(nameOf(i), sb.String(), ""))
+		}
+		must(al.Translate(0, align.GENETIC_CODE_STANDARD))
+		alphas = contentAlphabets(rows)
+	case "parse-fasta", "parse-clustal", "parse-phylip":
+		src := gen.MustBuild(ali(alpha, rows))
+		var e error
+		switch build {
+		case "parse-fasta":
+			al, e = fasta.NewParser(strings.NewReader(fasta.WriteAlignment(src))).Parse()
+		case "parse-clustal":
+			al, e = clustal.NewParser(strings.NewReader(clustal.WriteAlignment(src))).Parse()
+		default:
+			al, e = phylip.NewParser(strings.NewReader(phylip.WriteAlignment(src, false, true, true)), false).Parse()
+		}
+		must(e)
+		alphas = contentAlphabets(rows)
+	case "auto":
+		al = align.NewAlign(align.UNKNOWN)
+		for i, r := range rows {
+			must(al.AddSequence(nameOf(i), r, ""))
+		}
+		al.AutoAlphabet()
+		alphas = contentAlphabets(rows)
+	case "reauto":
+		al = align.NewAlign(align.NUCLEOTIDS)
+		for i, r := range rows {
+			must(al.AddSequence(nameOf(i), strings.Repeat("A", len(r)), ""))
+		}
+		for i, r := range rows {
+			for k := 0; k < len(r); k++ {
+				must(al.SetSequenceChar(i, k, r[k]))
+			}
+		}
+		al.AutoAlphabet()
+		alphas = contentAlphabets(rows)
 	default:
 		al = gen.MustBuild(ali(alpha, rows))
 	}
 	held = gen.Snapshot(al)
+	if len(held) != len(rows) {
+		panic("harness: the construction " + build + " does not hold the rows asked for")
+	}
+	if build != "sample" {
+		for i, r := range rows {
+			if held[i].Seq != r {
+				panic(fmt.Sprintf("harness: the construction %s holds %q for row %d, asked for %q", build, held[i].Seq, i, r))
+			}
+		}
+	}
+	return
+}
+
+// mergeStates: the model evaluated under every admissible alphabet; where they disagree either
+// outcome is accepted
+func mergeStates(per [][]int) (states []int, nEither int) {
+	states = append([]int{}, per[0]...)
+	for _, other := range per[1:] {
+		for i := range states {
+			if states[i] != other[i] {
+				states[i] = stEither
+			}
+		}
+	}
+	for _, v := range states {
+		if v == stEither {
+			nEither++
+		}
+	}
+	return
+}
+
+func siteStatesUnder(c siteCase, alphas []string, literal bool) (states []int, anyTie bool, nEither int) {
+	var per [][]int
+	for _, a := range alphas {
+		c2 := c
+		c2.Alpha = a
+		st, tie, _ := siteStates(c2, literal)
+		per = append(per, st)
+		anyTie = anyTie || tie
+	}
+	states, nEither = mergeStates(per)
+	return
+}
+
+func seqStatesUnder(c seqCase, alphas []string) (states []int, anyTie bool, nEither int) {
+	var per [][]int
+	for _, a := range alphas {
+		c2 := c
+		c2.Alpha = a
+		st, tie, _ := seqStates(c2)
+		per = append(per, st)
+		anyTie = anyTie || tie
+	}
+	states, nEither = mergeStates(per)
 	return
 }
 
@@ -453,7 +627,7 @@ func seqsOf(held []gen.Row) []string {
 func cutoffOf(p, q int) float64 { return float64(p) / float64(q) }
 
 func checkSites(c siteCase) (o pbt.Outcome, err error) {
-	al, held, sourceUnchanged := construct(c.Alpha, c.Rows, c.Build, c.Seed)
+	al, held, alphas, sourceUnchanged := construct(c.Alpha, c.Rows, c.Build, c.Seed, c.Plan)
 	names := make([]string, len(held))
 	for i, r := range held {
 		names[i] = r.Name
@@ -472,12 +646,12 @@ func checkSites(c siteCase) (o pbt.Outcome, err error) {
 	case "maj":
 		first, last, kept, rm = al.RemoveMajorityCharacterSites(cutoffOf(c.P, c.Q), c.Ends, c.IG, c.IN)
 	}
-	states, anyTie, nEither := siteStates(c, false)
+	states, anyTie, nEither := siteStatesUnder(c, alphas, false)
 	if e := verifySites(c.Rows, c.Ends, states, first, last, kept, rm, gen.Snapshot(al), al.Length()); e != nil {
 		open := false
 		if c.Op == "maj" && (c.P < 0 || c.P > c.Q) {
 			// outside the quantifier; documented "set to 0", the code compares with the cutoff as given: both accepted
-			lit, _, _ := siteStates(c, true)
+			lit, _, _ := siteStatesUnder(c, alphas, true)
 			e2 := verifySites(c.Rows, c.Ends, lit, first, last, kept, rm, gen.Snapshot(al), al.Length())
 			open = e2 == nil
 			if e2 != nil {
@@ -498,7 +672,7 @@ func checkSites(c siteCase) (o pbt.Outcome, err error) {
 	if o.NonTrivial {
 		o.Key = c.key()
 	}
-	o.Classes = append(o.Classes, "op="+c.Op, "alphabet="+c.Alpha, optClass[c.optMask()], "build="+buildName(c.Build))
+	o.Classes = append(o.Classes, "op="+c.Op, "alphabet="+c.Alpha, optClass[c.optMask()], "build="+buildName(c.Build), alphaClass(c.Build, alphas))
 	if anyTie {
 		o.Classes = append(o.Classes, "exact-tie")
 	}
@@ -537,17 +711,18 @@ func contains(l []int, v int) bool {
 
 // seqCase: one call of a sequence cleaning function
 type seqCase struct {
-	Alpha string   `json:"alphabet"`
-	Rows  []string `json:"rows"`
-	Op    string   `json:"op"`   // "char" RemoveCharacterSeqs, "gap" RemoveGapSeqs
-	Char  string   `json:"char"` // one character
-	P     int      `json:"p"`
-	Q     int      `json:"q"`
-	IC    bool     `json:"ignore_case"`
-	IG    bool     `json:"ignore_gaps"`
-	IN    bool     `json:"ignore_n"`
-	Build string   `json:"build,omitempty"`
-	Seed  int64    `json:"seed,omitempty"`
+	Alpha string    `json:"alphabet"`
+	Rows  []string  `json:"rows"`
+	Op    string    `json:"op"`   // "char" RemoveCharacterSeqs, "gap" RemoveGapSeqs
+	Char  string    `json:"char"` // one character
+	P     int       `json:"p"`
+	Q     int       `json:"q"`
+	IC    bool      `json:"ignore_case"`
+	IG    bool      `json:"ignore_gaps"`
+	IN    bool      `json:"ignore_n"`
+	Build string    `json:"build,omitempty"`
+	Seed  int64     `json:"seed,omitempty"`
+	Plan  *gen.Plan `json:"plan,omitempty"`
 }
 
 func (c seqCase) optMask() int {
@@ -623,7 +798,7 @@ func verifySeqsNamed(names []string, rows []string, states []int, after []gen.Ro
 }
 
 func checkSeqs(c seqCase) (o pbt.Outcome, err error) {
-	al, held, sourceUnchanged := construct(c.Alpha, c.Rows, c.Build, c.Seed)
+	al, held, alphas, sourceUnchanged := construct(c.Alpha, c.Rows, c.Build, c.Seed, c.Plan)
 	names := make([]string, len(held))
 	for i, r := range held {
 		names[i] = r.Name
@@ -637,7 +812,7 @@ func checkSeqs(c seqCase) (o pbt.Outcome, err error) {
 	} else {
 		n = al.RemoveCharacterSeqs(c.Char[0], cutoffOf(c.P, c.Q), c.IC, c.IG, c.IN)
 	}
-	states, anyTie, nEither := seqStates(inOrder)
+	states, anyTie, nEither := seqStatesUnder(inOrder, alphas)
 	after := gen.Snapshot(al)
 	removed, e := verifySeqsNamed(names, inOrder.Rows, states, after, n, true)
 	if e != nil {
@@ -660,7 +835,7 @@ func checkSeqs(c seqCase) (o pbt.Outcome, err error) {
 	if o.NonTrivial {
 		o.Key = c.key()
 	}
-	o.Classes = append(o.Classes, "op=seqs-"+c.Op, "alphabet="+c.Alpha, "seq-"+optClass[c.optMask()], "build="+buildName(c.Build))
+	o.Classes = append(o.Classes, "op=seqs-"+c.Op, "alphabet="+c.Alpha, "seq-"+optClass[c.optMask()], "build="+buildName(c.Build), alphaClass(c.Build, alphas))
 	if anyTie {
 		o.Classes = append(o.Classes, "exact-tie")
 	}
@@ -846,6 +1021,17 @@ var buildCounter int64
 func nextBuild() (string, int64) {
 	buildCounter++
 	return buildModes[buildCounter%int64(len(buildModes))], buildCounter
+}
+
+func alphaClass(build string, alphas []string) string {
+	switch build {
+	case "translate", "parse-fasta", "parse-clustal", "parse-phylip", "auto", "reauto":
+		if len(alphas) == 1 {
+			return "alphabet-from-history:content=" + alphas[0]
+		}
+		return "alphabet-from-history:content-compatible-with-both"
+	}
+	return "alphabet-declared"
 }
 
 func buildName(b string) string {
@@ -1059,8 +1245,32 @@ func genCharSet(t *rapid.T, alpha string, rows []string) string {
 func genRandom(t *rapid.T) randCase {
 	alpha := rapid.SampledFrom([]string{"nt", "aa"}).Draw(t, "alphabet")
 	rows := genRows(t, alpha, 12, 15)
-	build := rapid.SampledFrom(buildModes).Draw(t, "build")
+	build := rapid.SampledFrom(randomBuildModes).Draw(t, "build")
 	seed := rapid.Int64Range(1, 1<<30).Draw(t, "seed")
+	var plan *gen.Plan
+	switch build {
+	case "translate":
+		// a content a translation can give: upper-case protein with the residue N and the wildcard X
+		alpha = "aa"
+		a := gen.Columnwise(t, "ACDNLX-NX", 1, 12, 1, 15, "aa")
+		rows = rows[:0]
+		for _, r := range a.Rows {
+			rows = append(rows, r.Seq)
+		}
+	case "plan":
+		pl := gen.DrawPlan(t, ali(alpha, rows), alphaChars(alpha), 3)
+		plan = &pl
+	}
+	switch build {
+	case "translate", "parse-fasta", "parse-clustal", "parse-phylip", "auto", "reauto":
+		// a protein content is recognisable as such: it holds a letter that is no nucleotide code
+		if alpha == "aa" && len(contentAlphabets(rows)) != 1 && rapid.IntRange(0, 4).Draw(t, "recognisable") != 0 {
+			i := rapid.IntRange(0, len(rows)-1).Draw(t, "Li")
+			b := []byte(rows[i])
+			b[rapid.IntRange(0, len(b)-1).Draw(t, "Lj")] = 'L'
+			rows[i] = string(b)
+		}
+	}
 	if build == "shared" {
 		// identical rows (they are added from one byte slice)
 		for k := rapid.IntRange(1, len(rows)).Draw(t, "ncopies"); k > 0; k-- {
@@ -1079,32 +1289,32 @@ func genRandom(t *rapid.T) randCase {
 		c.Rows = rows
 		c.Chars = genCharSet(t, alpha, rows)
 		c.Ends, c.IC, c.IG, c.IN, c.Rev = rapid.Bool().Draw(t, "ends"), rapid.Bool().Draw(t, "ic"), rapid.Bool().Draw(t, "ig"), rapid.Bool().Draw(t, "in"), rapid.Bool().Draw(t, "rev")
-		c.Build, c.Seed = build, seed
+		c.Build, c.Seed, c.Plan = build, seed, plan
 		return randCase{Site: &c}
 	case kind == 5:
 		c := siteCase{Alpha: alpha, Op: "gap", P: p, Q: q}
 		c.Rows = rows
 		c.Ends = rapid.Bool().Draw(t, "ends")
-		c.Build, c.Seed = build, seed
+		c.Build, c.Seed, c.Plan = build, seed, plan
 		return randCase{Site: &c}
 	case kind == 6:
 		c := siteCase{Alpha: alpha, Op: "maj", P: p, Q: q}
 		c.Rows = rows
 		c.Ends, c.IG, c.IN = rapid.Bool().Draw(t, "ends"), rapid.Bool().Draw(t, "ig"), rapid.Bool().Draw(t, "in")
-		c.Build, c.Seed = build, seed
+		c.Build, c.Seed, c.Plan = build, seed, plan
 		return randCase{Site: &c}
 	case kind == 7:
 		c := seqCase{Alpha: alpha, Op: "gap", Char: "-", P: p, Q: q}
 		c.Rows = rows
 		c.IN = rapid.Bool().Draw(t, "in")
-		c.Build, c.Seed = build, seed
+		c.Build, c.Seed, c.Plan = build, seed, plan
 		return randCase{Seq: &c}
 	default:
 		c := seqCase{Alpha: alpha, Op: "char", P: p, Q: q}
 		c.Rows = rows
 		c.Char = genCharSet(t, alpha, rows)[:1]
 		c.IC, c.IG, c.IN = rapid.Bool().Draw(t, "ic"), rapid.Bool().Draw(t, "ig"), rapid.Bool().Draw(t, "in")
-		c.Build, c.Seed = build, seed
+		c.Build, c.Seed, c.Plan = build, seed, plan
 		return randCase{Seq: &c}
 	}
 }
